@@ -30,7 +30,13 @@
    [fixF2]/[fixA] select the repaired GC (true) or the code as found (false):
      fixF2: GC saves index.json (when AutoSaveIndex) after rebuilding the maps;
      fixA : gcIndex keeps the digest reference of every node that stays in the
-            rebuilt graph. *)
+            rebuilt graph;
+     fixF1: the referrer pass of gcIndex walks the subject chain and repeats until
+            nothing changes (false: the pass as found, which never returns when a
+            referrer's subject is not in the rebuilt graph: result RHang).
+   Delete (queue-once, tagged referrers kept, never-stored danglings skipped) and
+   resolver.Memory.Tag (moved reference leaves the old tag set) are modelled as
+   repaired (C09 owns their pre-fix variants). *)
 From Coq Require Import List Arith Bool PeanoNat.
 Import ListNotations.
 
@@ -92,10 +98,15 @@ Definition pair_eqb (a b : nat * ref) : bool := Nat.eqb (fst a) (fst b) && ref_e
 Definition tags_add (p : nat * ref) (l : list (nat * ref)) := if existsb (pair_eqb p) l then l else p :: l.
 Definition tags_del (p : nat * ref) (l : list (nat * ref)) := filter (fun q => negb (pair_eqb p q)) l.
 
-(* Memory.Tag: index[ref] = desc; tags[desc.Digest] += ref (the set of the digest
-   the reference pointed to before is left alone). *)
+(* Memory.Tag: index[ref] = desc; a reference that moves to other content leaves the tag
+   set of its previous target; tags[desc.Digest] += ref *)
 Definition res_tag (d : desc) (r : ref) (m : resolver) : resolver :=
-  mkRes (rset r d (r_index m)) (tags_add (d_node d, r) (r_tags m)).
+  let tg := match lookup r (r_index m) with
+            | Some old => if Nat.eqb (d_node old) (d_node d) then r_tags m
+                          else tags_del (d_node old, r) (r_tags m)
+            | None => r_tags m
+            end in
+  mkRes (rset r d (r_index m)) (tags_add (d_node d, r) tg).
 (* Memory.Untag *)
 Definition res_untag (r : ref) (m : resolver) : resolver :=
   match lookup r (r_index m) with
@@ -121,7 +132,8 @@ Definition save_index (c1 c2 : list nat) (m : rmap) : list desc :=
 (* iteration orders of the Go maps an operation ranges over: the two passes of saveIndex,
    the two passes of gcIndex, and, per iteration of Delete's queue loop, the predecessor
    set read by registry.Referrers and the successor set read by graph.Memory.Remove *)
-Record orders := mkOrd { o_save1 : list nat; o_save2 : list nat; o_gc1 : list nat; o_gc2 : list nat;
+Record orders := mkOrd { o_save1 : list nat; o_save2 : list nat; o_gc1 : list nat;
+                         o_gc2 : list (list nat);          (* one per round of the referrer pass *)
                          o_del : list (list nat * list nat) }.
 Definition ord0 := mkOrd [] [] [] [] [].
 
@@ -136,7 +148,7 @@ Section Universe.
   Variable subj : nat -> option nat.
   Variable sk : nat -> bool.
   Variable dflt : nat -> bool.
-  Variable fixF2 fixA : bool.
+  Variable fixF2 fixA fixF1 : bool.
 
   (* ---------- graph.Memory.IndexAll into a node set ---------- *)
   Fixpoint visit (fuel : nat) (present : nat -> bool) (n : nat) (g : list nat) : list nat :=
@@ -226,27 +238,38 @@ Section Universe.
   Definition referrers (s : store) (k : nat) : list nat :=
     filter (fun p => match subj p with Some x => Nat.eqb x k | None => false end) (predecessors (gr s) k).
 
+  (* the queue of Store.Delete with the set of nodes ever queued *)
+  Definition enqueue (x : nat) (qq : list nat * list nat) : list nat * list nat :=
+    if mem x (snd qq) then qq else (fst qq ++ [x], x :: snd qq).
+
   Fixpoint delete_loop (fuel : nat) (cfg : config) (o : orders) (ds : list (list nat * list nat))
-                       (queue : list nat) (s : store) : store * result :=
+                       (qq : list nat * list nat) (s : store) : store * result :=
     match fuel with
     | 0 => (s, ROutOfFuel)
     | S f =>
-      match queue with
+      match fst qq with
       | [] => (s, ROk)
       | head :: q =>
         let cs := hd ([], []) ds in
-        let q1 := if autogc cfg && mf head then q ++ shuffle (fst cs) (referrers s head) else q in
+        let qq0 := (q, snd qq) in
+        let qq1 := if autogc cfg && mf head
+                   then fold_left (fun a p => if is_tagged p s then a else enqueue p a)
+                                  (shuffle (fst cs) (referrers s head)) qq0
+                   else qq0 in
         match delete1 cfg o head s with
         | (s', _, false) => (s', RNotFound)
         | (s', dang, true) =>
-          let q2 := if autogc cfg
-                    then q1 ++ filter (fun d => negb (is_tagged d s')) (shuffle (snd cs) dang) else q1 in
-          delete_loop f cfg o (tl ds) q2 s'
+          let qq2 := if autogc cfg
+                     then fold_left (fun a d => if is_tagged d s' then a
+                                                else if mem d (blobs s') then enqueue d a else a)
+                                    (shuffle (snd cs) dang) qq1
+                     else qq1 in
+          delete_loop f cfg o (tl ds) qq2 s'
         end
       end
     end.
   Definition st_delete (cfg : config) (o : orders) (k : nat) (s : store) : store * result :=
-    delete_loop (S (S N) * S (S N)) cfg o (o_del o) [k] s.
+    delete_loop (S (S N)) cfg o (o_del o) ([k], [k]) s.
 
   (* ---------- gcIndex ---------- *)
   Record gcacc := mkGc { g_res : resolver; g_gr : list nat; g_tagged : list nat }.
@@ -261,21 +284,58 @@ Section Universe.
 
   (* None = the referrer walk never returns (the shadowed `subject` is re-read forever);
      Some (a, false) = Subject could not fetch the manifest (GC returns the error) *)
-  Fixpoint gc_pass2 (bl : list nat) (l : rmap) (a : gcacc) : option (gcacc * bool) :=
+  Fixpoint gc_pass2_old (bl : list nat) (l : rmap) (a : gcacc) : option (gcacc * bool) :=
     match l with
     | [] => Some (a, true)
     | (r, d) :: l' =>
-      if negb (is_digest_ref r d) || mem (d_node d) (g_tagged a) then gc_pass2 bl l' a
+      if negb (is_digest_ref r d) || mem (d_node d) (g_tagged a) then gc_pass2_old bl l' a
       else if sk (d_node d) && negb (mem (d_node d) bl) then Some (a, false)
       else match subj (d_node d) with
-           | None => gc_pass2 bl l' a
+           | None => gc_pass2_old bl l' a
            | Some sb =>
              if mem sb (g_gr a)
-             then gc_pass2 bl l' (mkGc (res_tag (strip d) (RDig (d_node d)) (g_res a))
+             then gc_pass2_old bl l' (mkGc (res_tag (strip d) (RDig (d_node d)) (g_res a))
                                        (index_all bl (d_node d) (g_gr a)) (g_tagged a))
              else None
            end
     end.
+
+  (* the repaired referrer pass.  [chain_hits]: walking manifestutil.Subject from node k,
+     is a subject met that is already in the rebuilt graph?  A manifest that is not in the
+     storage (NotFound) or a node without subject ends the walk. *)
+  Fixpoint chain_hits (fuel : nat) (bl g : list nat) (cur : nat) : bool :=
+    match fuel with
+    | 0 => false
+    | S f =>
+      if sk cur && negb (mem cur bl) then false
+      else match subj cur with
+           | None => false
+           | Some sb => if mem sb g then true else chain_hits f bl g sb
+           end
+    end.
+
+  (* one range over the map; g_tagged also collects the kept referrers; the flag says
+     whether anything was kept in this round *)
+  Definition gc_round (bl : list nat) (l : rmap) (a : gcacc) : gcacc * bool :=
+    fold_left (fun ac kv =>
+      let a := fst ac in let r := fst kv in let d := snd kv in
+      if negb (is_digest_ref r d) || mem (d_node d) (g_tagged a) then ac
+      else if chain_hits (S N) bl (g_gr a) (d_node d)
+           then (mkGc (res_tag (strip d) (RDig (d_node d)) (g_res a))
+                      (index_all bl (d_node d) (g_gr a)) (d_node d :: g_tagged a), true)
+           else ac) l (a, false).
+
+  Fixpoint gc_rounds (fuel : nat) (bl : list nat) (m : rmap) (os : list (list nat)) (a : gcacc) : gcacc :=
+    match fuel with
+    | 0 => a
+    | S f =>
+      let ab := gc_round bl (shuffle (hd [] os) m) a in
+      if snd ab then gc_rounds f bl m (tl os) (fst ab) else fst ab
+    end.
+
+  Definition gc_pass2 (bl : list nat) (m : rmap) (o : orders) (a : gcacc) : option (gcacc * bool) :=
+    if fixF1 then Some (gc_rounds (S (length m)) bl m (o_gc2 o) a, true)
+    else gc_pass2_old bl (shuffle (hd [] (o_gc2 o)) m) a.
 
   Definition gc_pass3 (l : rmap) (a : gcacc) : gcacc :=
     fold_left (fun a kv =>
@@ -291,7 +351,7 @@ Section Universe.
   Definition st_gc (cfg : config) (o : orders) (s : store) : store * result :=
     let m := r_index (res s) in
     let a1 := gc_pass1 (blobs s) (shuffle (o_gc1 o) m) (mkGc res_empty [] []) in
-    match gc_pass2 (blobs s) (shuffle (o_gc2 o) m) a1 with
+    match gc_pass2 (blobs s) m o a1 with
     | None => (s, RHang)
     | Some (_, false) => (s, RNotFound)
     | Some (a2, true) =>
@@ -320,7 +380,9 @@ Section Universe.
   | ODelete (k : nat)
   | OGC
   | OSave
-  | OReopen.       (* close and oci.New on the same directory *)
+  | OReopen        (* close and oci.New on the same directory *)
+  | OInject (k : nat).  (* not a store operation: node k's bytes are written as a blob file
+                           behind the store's back ("garbage whose metadata is not stored") *)
 
   Definition step (cfg : config) (s : store) (oo : op * orders) : store * result :=
     let o := snd oo in
@@ -332,6 +394,7 @@ Section Universe.
     | OGC => st_gc cfg o s
     | OSave => (do_save o s, ROk)
     | OReopen => (reopen s, ROk)
+    | OInject k => (if mem k (blobs s) then s else mkStore (k :: blobs s) (res s) (gr s) (disk s), ROk)
     end.
 
   Definition run (cfg : config) (h : list (op * orders)) (s : store) : store :=
@@ -341,6 +404,10 @@ Section Universe.
   Definition obs_tags (T : nat) (s : store) : list nat :=
     filter (fun t => match lookup (RTag t) (r_index (res s)) with
                      | Some d => negb (is_digest_ref (RTag t) d) | None => false end) (seq 0 T).
+  (* Tags(last, fn): the tags after [last]; [f] is the pool index of the first name that is
+     greater than last (listTags skips tag <= last) *)
+  Definition obs_tags_from (T f : nat) (s : store) : list nat :=
+    filter (fun t => Nat.leb f t) (obs_tags T s).
   (* Resolve of a tag name *)
   Definition obs_resolve_tag (s : store) (t : nat) : option desc := lookup (RTag t) (r_index (res s)).
   (* Resolve of the digest string of node k *)
@@ -358,10 +425,19 @@ Section Universe.
   (* index.json validity: every entry points to an existing blob *)
   Definition disk_valid (s : store) : bool := forallb (fun e => mem (d_node e) (blobs s)) (disk s).
 
+  (* ---------- files under blobs/ that are no content of the store (GC's sweep) ---------- *)
+  Inductive stray := SValidName      (* blobs/<known alg>/<valid encoded digest>: removed by GC *)
+                   | SInvalidName    (* blobs/<known alg>/<not an encoded digest>: skipped *)
+                   | SUnknownAlg     (* blobs/<unknown algorithm>/<anything>: directory skipped *)
+                   | SBlobsFile.     (* a plain file directly under blobs/: skipped *)
+  Definition gc_sweeps_stray (k : stray) : bool := match k with SValidName => true | _ => false end.
+
   (* ---------- vocabulary of the C08 statements (definitions only) ---------- *)
   (* a tag name is never the digest string of another node *)
   Definition wf_tag (d : desc) (r : ref) : Prop := match r with RDig k => k = d_node d | RTag _ => True end.
-  Definition wf_op (o : op) : Prop := match o with OTag d r => wf_tag d r | _ => True end.
+  (* only non-manifest content is ever put into blobs/ behind the store's back *)
+  Definition wf_op (o : op) : Prop :=
+    match o with OTag d r => wf_tag d r | OInject k => mf k = false | _ => True end.
   Definition wf_history (h : list (op * orders)) : Prop := Forall (fun oo => wf_op (fst oo)) h.
   Definition no_reopen (h : list (op * orders)) : Prop := Forall (fun oo => fst oo <> OReopen) h.
 
@@ -383,6 +459,7 @@ Section Universe.
      (for every tag name below T and every node, also outside the universe bound) *)
   Record obs_equiv (T : nat) (a b : store) : Prop := {
     oe_tags : obs_tags T a = obs_tags T b;
+    oe_tags_from : forall f, obs_tags_from T f a = obs_tags_from T f b;
     oe_rtag : forall t, match obs_resolve_tag a t, obs_resolve_tag b t with
                         | Some x, Some y => desc_eqb_mod x y = true
                         | None, None => True
